@@ -5,6 +5,18 @@ HERE = os.path.dirname(os.path.dirname(os.path.abspath(__file__)))
 ALL = ['C%02d' % i for i in range(1, 21)]
 
 CHECKS = {
+ 'C10': dict(cat='translation_validation', engine='gen+encode',
+   text='The real generator is built and run on a scratch copy of the current tree. (a) the emitted intermediate_representation.json is validated against the published JSON Typedef schema (deterministic validator written for this check). (b) a second front end builds the canonical encoder from the IR objects; per container (all login versions, three expansions, structs, messages, update-mask structs) and covered shape z3 decides that the IR-derived encoding (bytes and validity predicate, all field values symbolic) equals the one derived independently from the wowm text, with IR else-if chains matched to wowm branches by solver implication rather than syntax. (c) object inventories per version view (omitted/invented, both directions), kinds, opcodes, definer base types, enumerator names and values, declared member sequences and test vectors are compared as data.',
+   note='Level: translation validation of the IR printer against an independent reading of the wowm (vf/wowm.py); (a) and (c) are deterministic comparisons, only (b) is a solver claim, bounded by the covered shapes (cap 6 quick / 40 thorough per container). Comments, display names, file positions, the sizes objects (C09) and the update-mask offset tables are outside the comparison. Containers with compressed arrays / UpdateMask / AddonArray members are compared by declared member sequence only.',
+   technique='run of the real generator + z3 equivalence of two encoders (wowm-derived vs IR-derived) per container and shape; JTD validation', ref='DESIGN.md 4/C10'),
+ 'C13': dict(cat='model_checking', engine='mirsym',
+   text='Every generated UpdateMask setter/getter of the three expansions is executed on the MIR with symbolic values against the field table of the documentation (offset, width, packing of bytes/shorts/guids/floats): set writes exactly the documented words and marks exactly those dirty, get inverts set; the shared bookkeeping step (header/dirty masks, BTreeMap model) is executed for one arbitrary step.',
+   note='Trusts the MIR interpreter, the BTreeMap API model and the field table parsed from wowm_language/src/spec/update-mask.md; the wire form of whole masks (write_into_vec/read) is covered for bounded block counts only; see DESIGN.md.',
+   technique='symbolic execution of rustc MIR into SMT (z3), per accessor, all values at once', ref='DESIGN.md 4/C13'),
+ 'C20': dict(cat='model_checking', engine='mirsym',
+   text='The MIR of geometry::is_within_square, distance_between, distance_2d and is_within_distance is executed with every f32 operation modelled as exact real arithmetic plus an explicit bounded rounding-error term (a sound over-approximation of round-to-nearest f32 without overflow). Per yaw of the trigger tables (all distinct values) and of an evenly spaced set, z3 (linear real arithmetic) decides over all positions, centres and extents that points clearly inside the documented box (2-yard tolerance, 1/64-yard undecided band) are reported inside and points clearly outside are reported outside; the rotation angle is evaluated bit-exactly and its sin/cos come from the native libm; the reference rotates by the yaw itself. Distances: z3 (nonlinear real arithmetic) decides result >= 0 and result^2 within (1 +- 1e-5)^2 of the exact sum of squares.',
+   note='A sat answer is only a candidate: it is replayed natively (dev + release) at the nearest f32 inputs and reported only if the exact rational definition disagrees with the native result. Domain +-20000 / extents <= 1000. The 3-D "too small" distance obligation does not finish within the quick budget (reported as inconclusive in the evidence). Map equality and the table lookup of verify_trigger are not covered.',
+   technique='symbolic execution of rustc MIR into SMT (z3 real arithmetic with explicit rounding-error terms), per yaw', ref='DESIGN.md 4/C20'),
  'C03': dict(cat='model_checking', engine='mirsym',
    text='The real read_inner of every login and world message is executed symbolically on (i) fully symbolic bodies of sizes its guard accepts and (ii) canonical prefixes followed by symbolic suffixes at field boundaries, with monitors for panics, failed overflow checks, unwrap/expect, unreachable code and allocation requests that can exceed 16 MiB under the path condition (count symbolic). Exploration is concolic with a stated path cap; every monitored path is solved for concrete bytes and replayed through the public readers of the native dev and release builds with a counting allocator.',
    note='Bounded exploration (path cap per query, buffer lengths as stated): the absence of a report is a claim about the explored paths only. zlib payloads (flate2) and UpdateMask members are outside the encoding. Header-level parsing is covered by C02-C. Recorded findings: allocation requests within the wire-size guard but far above the frame size, AddonArray reader panic.',
@@ -94,6 +106,8 @@ def main():
         'engines': [
             {'name': 'mirsym', 'path': 'vf/mirsym.py', 'serves_properties': [p for p in ALL if 'mirsym' in CHECKS.get(p, {}).get('engine', '')],
              'kind_free_text': 'symbolic executor for rustc\'s monomorphised MIR (dumped by tools/mirdump, a rustc_public driver built with the nightly toolchain) producing z3 bit-vector queries; std containers modelled at API level (vf/models.py); independent wowm reader (vf/wowm.py) as the oracle; counterexamples replayed on native builds'},
+            {'name': 'gen+encode', 'path': 'vf/gen.py', 'serves_properties': [p for p in ALL if 'gen' in CHECKS.get(p, {}).get('engine', '')],
+             'kind_free_text': 'the real generator (wow_message_parser) built and run on a scratch copy of the current tree; its outputs are compared with the independent wowm reader / canonical encoder (vf/wowm.py, vf/encode.py) by z3'},
             {'name': 'kani', 'path': 'vf/kani.py', 'serves_properties': [p for p in ALL if 'kani' in CHECKS.get(p, {}).get('engine', '')],
              'kind_free_text': 'Kani 0.68 / CBMC 6.11 over the compiled crates; harness crates generated under work/ with path dependencies on /repo'},
         ],
